@@ -6,15 +6,16 @@ ID = 'C12'
 GEN = ['Hex', 'Sampler']
 LEAN_TARGETS = ['OtelVerif.Props.C12']
 THEOREMS = ['Otel.C12.' + t for t in (
-    # generic over every monotone rounding that fixes integers below 2^53
-    'thresholdWith_mono', 'thresholdWith_le_max', 'thresholdWith_no_wrap', 'idThresholdWith_mono',
-    'sample_mono_generic', 'sample_antitone_in_id_generic',
-    # the concrete binary64 rounding is such a rounding
-    'fl_mono', 'fl_int', 'flRnd_fl',
+    # generic over every monotone rounding that fixes the integers below 2^53 (structure Rnd)
+    'thr_mono', 'thr_bounds', 'thresholdWith_eq', 'thresholdWith_mono', 'thresholdWith_le_max', 'thresholdWith_no_wrap',
+    'idThresholdWith_mono', 'sample_mono_generic', 'sample_antitone_in_id_generic',
+    # the concrete executable binary64 rounding is such a rounding
+    'roundEven_mono', 'ilog2_spec', 'fl_mono', 'fl_int', 'flRnd_fl',
     # the property, for the model of the code (rnd = fl)
-    'threshold_mono', 'thresholdD_mono', 'threshold_lt_two_pow_64', 'threshold_no_wrap', 'sample_mono', 'ratio_le_zero_never', 'ratio_ge_one_always',
+    'threshold_mono', 'thresholdD_mono', 'threshold_lt_two_pow_64', 'threshold_no_wrap', 'sample_mono', 'sample_monoD',
+    'ratio_le_zero_never', 'ratio_ge_one_always', 'ratio_result_shape',
     'decision_depends_only_on_id_and_ratio', 'participants_agree', 'sample_antitone_in_id',
-    'parentBased_valid_parent', 'parentBased_valid_parent_no_consult', 'parentBased_root_delegates',
+    'isSampled_iff_bit0', 'parentBased_valid_parent', 'parentBased_valid_parent_no_consult', 'parentBased_root_delegates',
     'parentBased_root_consults', 'alwaysOn_constant', 'alwaysOff_constant',
     'gen_constants')]
 HARNESSES = [Harness('s_c12', ['harness/s_c12.cc'], sdk_srcs=sdk_sources('common', 'resource', 'version', 'trace'),
